@@ -1,5 +1,5 @@
 /*@unit {
- 'kind': 'proof', 'mode': 'legacy',
+ 'kind': 'proof', 'mode': 'dfcc',
  'functions': ['path_last_node'],
  'include': ['/verif/units/C19/cxxshim'],
  'replace': ['strlen'],
